@@ -320,6 +320,7 @@ var specC35 = vstat.Spec[c35Case]{
 	Gen:         genC35,
 	Check:       checkC35,
 	Inflight:    true,
+	Confirm:     true,
 }
 
 func TestC35(t *testing.T)       { vstat.Check(t, specC35) }
